@@ -6,6 +6,7 @@ import re
 from pyvc.contract import Contract, T
 from pyvc.speclib import implies, iff, fullmatch
 from ak import color as akc
+from contracts import c08_chtext as _c08
 
 PROP = 'C09'
 ESC = "\x1b"
@@ -253,6 +254,18 @@ CONTRACTS = [
              ensures={'plain_text': "result == plain(self.chunks)"},
              raises={}, modifies=[],
              note="bounded-symbolic: 0..3 chunks with fully symbolic contents (labelled bounded, not counted as proved)"),
+    # the same two statements for texts with ANY number of chunks (folds of contracts/c08_chtext.py: the generator
+    # expressions of the code are the folds `rendered` / `plain` exactly when their element expressions agree)
+    Contract(M, 'CHText.__str__', name='CHText.__str__/any_length', prop=PROP, spec_globals=G, level='top',
+             params={'self': T.one_of(_c08.ANYTEXT())},
+             ensures={'chtext_str': "result == render(self.chunks)"},
+             symlist_models={'render': _c08.FOLD_MODELS['rendered'], 'plain': _c08.FOLD_MODELS['plain']},
+             raises={}, modifies=[]),
+    Contract(M, 'CHText.plain_text', name='CHText.plain_text/any_length', prop=PROP, spec_globals=G, level='top',
+             params={'self': T.one_of(_c08.ANYTEXT())},
+             ensures={'plain_text': "result == plain(self.chunks)"},
+             symlist_models={'render': _c08.FOLD_MODELS['rendered'], 'plain': _c08.FOLD_MODELS['plain']},
+             raises={}, modifies=[]),
     Contract(M, 'CHText.strip_colors', prop=PROP, spec_globals=G, level='top',
              params={'cls': T.cls('ak.color:CHText'), 'text': T.str},
              ensures={'strip_is_sub': "result == re_sub_empty(R, text)"},
